@@ -28,7 +28,12 @@ RULE = ('logs are printed by a synthesiser from a list-of-tables model, round-ro
         'not on the first line, absent) x 1-6 run/minimize blocks x 2-9 keywords (Step first / in the middle / absent, '
         'integer keywords, bracketed names) x CRLF x keyword set changed between runs x whole-number last stage x nan/inf; '
         'input kind (str text, str path, pathlib.Path, bytes, BytesIO, open "rb" file) and constructor/read form cycle '
-        'with the index. Histories: 1-4 logs cut from one global plan, append flags and versions by index. A case is '
+        'with the index. Histories: 1-4 logs cut from one global plan, append flags and versions by index; after every read '
+        '(every fifth history: only after the last) one round of flatten requests judged against the model of what has been '
+        'read so far: three styles with default indices + one (style, firstindex, lastindex) request per history out of 3 x 6, '
+        'the same arguments after every read, spelled positionally / by keyword / with defaults left out; on every other '
+        'round one request is repeated (equal table), its table modified in place by the caller (6 kinds) and requested '
+        'again; each round ends with a comparison of all records, version and date with copies taken before it. A case is '
         'non-trivial when at least one thermo row is read; distinct = distinct fingerprint of the log text(s).')
 ASSUMPTIONS = [
     'thermo output is the one-line table style (thermo_style one/custom), keywords are distinct, no WARNING lines '
@@ -40,6 +45,8 @@ ASSUMPTIONS = [
     'reset (the property does not say which)',
     'flatten(first/last) completeness is not judged when overlapping runs printed on different step grids '
     '(which stale rows of the earlier run survive is not fixed by the property); uniqueness and row source are',
+    'flatten is a function of what has been read so far: the table it hands out belongs to the caller (modifying it in '
+    'place changes neither the records of the log nor a later flatten result), and flatten itself leaves the records alone',
     'the timing-breakdown table is an auxiliary clause (not part of the property statement): numbers per section only',
 ]
 CONFIG = {'quick': dict(shards=8, seeds=1, timeout=600), 'thorough': dict(shards=16, seeds=3, timeout=3000)}
@@ -350,6 +357,147 @@ def check_flatten(ctx, log, runs, style, lo=None, hi=None, where='flatten', call
 
 
 # ---------------------------------------------------------------------------------------------
+# the object between its read() calls: flatten is a function of what has been read so far
+STYLES = ('first', 'last', 'all')
+CALLS = ('positional', 'keyword', 'minimal')
+# index ranges repeated with the same arguments after every read of a history (they select other runs as the list grows)
+SLICE_ARGS = [(1, None), (None, -1), (0, 2), (-2, None), (None, 1), (-3, -1)]
+MUTATIONS = ['shift-steps', 'drop-row', 'set-cell', 'rename-column', 'drop-all-rows', 'insert-column']
+
+
+def snapshot(log):
+    """Private copies of everything the object reports (taken by the harness, compared later)."""
+    sims = list(log.simulations)
+    return dict(thermo=[None if s_.thermo is None else s_.thermo.copy(deep=True) for s_ in sims],
+                perf=[None if s_.performance is None else s_.performance.copy(deep=True) for s_ in sims],
+                version=log.lammps_version, date=log.lammps_date)
+
+
+def same_table(a, b):
+    if a is None or b is None:
+        return a is None and b is None
+    return [str(c) for c in a.columns] == [str(c) for c in b.columns] and bool(a.equals(b))
+
+
+def records_changed(log, snap):
+    """What differs between the object's records and a snapshot: list of (what, index)."""
+    sims = list(log.simulations)
+    out = []
+    if len(sims) != len(snap['thermo']):
+        out.append(('number of records', len(sims)))
+    for k, s_ in enumerate(sims[:len(snap['thermo'])]):
+        if not same_table(s_.thermo, snap['thermo'][k]):
+            out.append(('thermo', k))
+        if not same_table(s_.performance, snap['perf'][k]):
+            out.append(('performance', k))
+    if log.lammps_version != snap['version']:
+        out.append(('lammps_version', log.lammps_version))
+    if log.lammps_date != snap['date']:
+        out.append(('lammps_date', str(log.lammps_date)))
+    return out
+
+
+def restore_records(log, snap, changed):
+    """After a recorded violation: put the harness' copies back (public setter) so the rest of the history is judged on
+    what was read, not on the damage."""
+    sims = list(log.simulations)
+    for what, k in changed:
+        if what == 'thermo' and k < len(sims) and snap['thermo'][k] is not None:
+            sims[k].thermo = snap['thermo'][k].copy(deep=True)
+
+
+def mutate_table(rng, t, kind):
+    """In-place modification of a table the caller was handed (pandas API only)."""
+    r = int(rng.integers(0, len(t)))
+    c = [str(x) for x in t.columns].index('Step')
+    if kind == 'shift-steps':
+        t['Step'] = t['Step'] + 7
+    elif kind == 'drop-row':
+        t.drop(index=t.index[r], inplace=True)
+    elif kind == 'set-cell':
+        t.iloc[r, c] = int(t.iloc[r, c]) + 12345
+    elif kind == 'rename-column':
+        t.rename(columns={'Step': 'step'}, inplace=True)
+    elif kind == 'drop-all-rows':
+        t.drop(index=t.index, inplace=True)
+    elif kind == 'insert-column':
+        t.insert(0, 'mine', 1.0)
+    else:
+        raise ValueError(kind)
+
+
+def check_repeat_and_mutation(ctx, log, runs, style, lo, hi, res, call, mkind, before, **detail):
+    """``res`` = table returned by flatten(style, lo, hi) and already judged against the model.
+    (1) the identical call again gives an equal table; (2) the table is the caller's: after the caller modified it in
+    place, the identical call still gives the judged table and the records of the log are what they were."""
+    rec = ctx.rec
+    sub = runs[lo:hi]
+    if res is None or 'Step' not in [str(c) for c in res.columns]:
+        return
+    contributing = sum(1 for r_ in sub if len(r_['rows']) > 0)
+    judged = res.copy(deep=True)
+    again = None
+    with ctx.guard(f'flatten({style}) returns the merged table', f'flatten:{style}:repeat:exception'):
+        again = call_flatten(log, style, lo, hi, call).thermo
+    if again is None:
+        return
+    rec.count('flatten:repeat')
+    rec.check(same_table(again, judged), 'repeating a flatten call with the same arguments gives an equal table',
+              f'flatten:{style}:repeat', style=style, range=(lo, hi), call=call, n_first=len(judged), n_again=len(again), **detail)
+    if len(res) == 0:
+        rec.count('flatten:caller-mutation:no-row-skipped')
+        return
+    cls = 'single-block' if contributing <= 1 else 'merged'
+    earlier = records_changed(log, before)             # a side effect of flatten itself is judged by its own clause
+    mutate_table(ctx.rng, res, mkind)
+    if same_table(res, judged):                        # harness sanity: the modification must be one
+        rec.count('flatten:caller-mutation:ineffective')
+        return
+    rec.count('flatten:caller-mutation:' + cls)
+    rec.count('flatten:caller-mutation:kind:' + mkind)
+    third, raised = None, None
+    try:                                               # an exception here is a consequence of the modification
+        third = call_flatten(log, style, lo, hi, call).thermo
+    except Exception as e:
+        raised = '%s: %s' % (type(e).__name__, e)
+    changed = [c_ for c_ in records_changed(log, before) if c_ not in earlier]
+    ok = third is not None and same_table(third, judged) and not changed
+    rec.check(ok, 'a table returned by flatten is the caller\'s: modifying it changes neither the records of the log nor '
+              'what a later flatten returns', f'flatten:caller-mutation:{cls}', style=style, range=(lo, hi), call=call,
+              modification=mkind, later_flatten_changed=third is None or not same_table(third, judged),
+              later_flatten_raised=raised, records_changed=changed[:4], blocks_in_range=len(sub), **detail)
+    if changed:
+        restore_records(log, before, changed)
+
+
+def flatten_probes(ctx, log, state, idx, where, slice_args=None, repeat=None, **detail):
+    """One round of flatten calls on the object as it is now, each judged against the model of what has been read so
+    far: the three styles with default index arguments, optionally one (style, firstindex, lastindex) request, optionally
+    the repeat / caller-modification clause on one of them; then: the round left the records alone."""
+    rec = ctx.rec
+    runs = state.runs
+    before = snapshot(log)
+    probes = [(style, None, None, CALLS[(idx + s_) % 3]) for s_, style in enumerate(STYLES)]
+    if slice_args is not None:
+        style, a, b = slice_args
+        probes.append((style, a, b, CALLS[(idx // 3) % 3]))
+        if runs[a:b]:
+            rec.count('flatten:slices')
+            rec.count(where + ':slices')
+    for p_, (style, a, b, call) in enumerate(probes):
+        extra = dict(sliced=(a, b)) if (a, b) != (None, None) else {}
+        res = check_flatten(ctx, log, runs, style, a, b, where=where, call=call, **extra, **detail)
+        if repeat is not None and repeat[0] == p_:
+            check_repeat_and_mutation(ctx, log, runs, style, a, b, res, call, repeat[1], before, **detail)
+    changed = records_changed(log, before)
+    rec.count('flatten:side-effect-checks')
+    rec.check(not changed, 'flatten leaves the records of the log (runs, tables, version, date) as they were read',
+              'flatten:side-effect', changed=changed[:4], **detail)
+    if changed:
+        restore_records(log, before, changed)
+
+
+# ---------------------------------------------------------------------------------------------
 def install_monitors(rec, lmp):
     """Postcondition on the real Log.read (fires for the constructor's internal call too):
     the number of records grows by the number of blocks of the log just read, or restarts from it."""
@@ -491,14 +639,17 @@ def _logs(ctx, lmp, feeder):
         check_log(rec, log, state, 'read', **detail)
         if g.exc is not None:
             continue
-        for style in ('first', 'last', 'all'):
-            check_flatten(ctx, log, state.runs, style, **detail)
+        sl = None
         if len(state.runs) >= 3 and i % 3 == 0:        # firstindex / lastindex restrict the merge
             a = int(rng.integers(0, len(state.runs) - 1))
             b = int(rng.integers(a + 1, len(state.runs) + 1))
-            style = ('first', 'last', 'all')[(i // 3) % 3]
-            rec.count('flatten:slices')
-            check_flatten(ctx, log, state.runs, style, a, b, sliced=(a, b), **detail)
+            sl = (STYLES[(i // 3) % 3], a, b)
+        # two logs in three: one of the requests is repeated, its table modified by the caller, and asked for again
+        rp = None
+        if i % 3 != 1:
+            rp = ((i // 3) % (4 if sl is not None else 3), MUTATIONS[(i // 2) % len(MUTATIONS)])
+            rec.count('class:repeat-and-modify')
+        flatten_probes(ctx, log, state, i, 'flatten', slice_args=sl, repeat=rp, **detail)
         # the same text through another input kind gives the same tables
         if i % 4 == 1:
             kind2 = KINDS[(i + 3) % len(KINDS)]
@@ -568,6 +719,10 @@ def _histories(ctx, lmp, feeder):
         state = M.LogState()
         log = None
         dead = False
+        # every fifth history asks for the merged table only after its last read (first flatten after several reads)
+        end_only = i % 5 == 4
+        sl_args = (STYLES[i % 3], ) + SLICE_ARGS[(i // 3) % len(SLICE_ARGS)]
+        rounds = 0
         for j, o in enumerate(ops):
             EXPECT['n'] = len(o['model']['runs'])
             arg = feeder.give(o['text'], o['kind'])
@@ -601,11 +756,23 @@ def _histories(ctx, lmp, feeder):
             if ap is not False and j > 0:
                 rec.count('history:append-after-data')
             check_log(rec, log, state, 'history', **detail)
+            # between the reads: flatten requests (the same arguments after every read of this history) and, through
+            # check_log above and the side-effect clause, every other thing the object reports
+            if end_only and j < nlogs - 1:
+                continue
+            where = 'flatten' if rounds == 0 else 'flatten:interleaved'
+            if rounds > 0:
+                rec.count('flatten:after-' + ('replace' if ap is False else 'append'))
+            rp = None
+            if (i + j) % 2 == 0:
+                rp = ((i // 2 + j) % 4, MUTATIONS[(i // 4 + j) % len(MUTATIONS)])
+            flatten_probes(ctx, log, state, i, where, slice_args=sl_args, repeat=rp, history=True, plan=plan,
+                           round=rounds, **detail)
+            rounds += 1
         if dead or log is None:
             continue
         rec.count('histories-completed')
-        for style in ('first', 'last', 'all'):
-            check_flatten(ctx, log, state.runs, style, where='flatten', history=True, plan=plan)
+        rec.count('history:flatten-' + ('at-end-only' if end_only else 'after-every-read'))
 
 
 def _floors(ctx):
@@ -663,6 +830,23 @@ def _floors(ctx):
     f('flatten:last:int-printed-later', 10)
     f('flatten:no-step', 30)
     f('flatten:slices', 30)
+    # the object between its reads: flatten requests after earlier flatten calls and further reads
+    f('flatten:interleaved', 600)
+    for style in STYLES:
+        f('flatten:interleaved:' + style, 150)
+    f('flatten:interleaved:slices', 80)
+    f('flatten:after-append', 120)
+    f('flatten:after-replace', 30)
+    f('history:flatten-after-every-read', 100)
+    f('history:flatten-at-end-only', 30)
+    for c in CALLS:
+        f('flatten:call:' + c, 300)
+    f('flatten:repeat', 400)
+    f('flatten:caller-mutation:merged', 200)
+    f('flatten:caller-mutation:single-block', 60)
+    for k_ in MUTATIONS:
+        f('flatten:caller-mutation:kind:' + k_, 40)
+    f('flatten:side-effect-checks', 800)
     f('histories-completed', 100)
     for k in range(1, 5):
         f('class:history-length:%d' % k, 30)
